@@ -17,6 +17,7 @@ type MatchRequest struct {
 	final    bool
 	sort     bool
 	revision revision
+	seq      uint64
 }
 
 // Matcher is responsible for performing search
@@ -31,6 +32,7 @@ type Matcher struct {
 	slab           []*util.Slab
 	mergerCache    map[string]*Merger
 	revision       revision
+	reqSeq         uint64
 }
 
 const (
@@ -71,7 +73,10 @@ func (m *Matcher) Loop() {
 				}
 				switch val := val.(type) {
 				case MatchRequest:
-					request = val
+					// Both request slots can be occupied; serve the most recent one
+					if val.seq >= request.seq {
+						request = val
+					}
 				default:
 					panic(fmt.Sprintf("Unexpected type: %T", val))
 				}
@@ -249,7 +254,8 @@ func (m *Matcher) Reset(chunks []*Chunk, patternRunes []rune, cancel bool, final
 	} else {
 		event = reqRetry
 	}
-	m.reqBox.Set(event, MatchRequest{chunks, pattern, final, sort, revision})
+	m.reqSeq++
+	m.reqBox.Set(event, MatchRequest{chunks, pattern, final, sort, revision, m.reqSeq})
 }
 
 func (m *Matcher) Stop() {
